@@ -198,7 +198,7 @@ def gen(rnd):
 
 
 def _gen(rnd):
-    dt = rnd.choice([1.0, 0.5, 0.25])
+    dt = rnd.choice([1.0, 0.5, 0.25, 0.1, 0.2, 0.05])
     elements = [('constant', 'c1', rnd.choice([3.0, -2.0, 0.5])), ('constant', 'c2', rnd.choice([1.0, 4.0]))]
     names = []
     nconv = rnd.randint(1, 3)
